@@ -24,6 +24,21 @@ theorem return_nil_iff_committed_clean (p : MergePlanCalls) (fail : Nat → Bool
        (List.range p.sources).all (fun j => !fail (1 + totalCalls p.groups + 1 + j)) = true) :=
   merge_ok_iff_aux p fail hg
 
+/-- Witness plan for the non-vacuity examples: two groups (one reading a source, 6 + 3 calls) and four sources. -/
+private def nv_plan : MergePlanCalls :=
+  ⟨[[.create, .openR, .read, .closeR, .write, .close], [.create, .write, .close]], 4⟩
+
+/-- non-vacuity: the premise of `return_nil_iff_committed_clean` holds for that plan, and both sides of the
+    equivalence are true for a run whose only fault is an (ignored) reader Close error -/
+example : nv_plan.groups ≠ [] ∧ (merge nv_plan (fun k => k == 4)).result = .ok ∧
+    (merge nv_plan (fun k => k == 4)).committed = true :=
+  ⟨by decide, by decide, ((return_nil_iff_committed_clean nv_plan (fun k => k == 4) (by decide)).1 (by decide)).1⟩
+
+/-- non-vacuity: … and both sides are false when the third source tombstone (call 1 + 9 + 1 + 2) fails -/
+example : nv_plan.groups ≠ [] ∧ (merge nv_plan (fun k => k == 13)).result = .postCommitErr ∧
+    (List.range nv_plan.sources).all (fun j => !(fun k => k == 13) (1 + totalCalls nv_plan.groups + 1 + j)) = false :=
+  ⟨by decide, by decide, by decide⟩
+
 /-- ErrPostCommitCleanup (with stats) exactly when it committed but a source tombstone failed. -/
 theorem postcommit_err_iff (p : MergePlanCalls) (fail : Nat → Bool) :
     (merge p fail).result = .postCommitErr ↔
@@ -35,6 +50,12 @@ theorem postcommit_err_iff (p : MergePlanCalls) (fail : Nat → Bool) :
 theorem orphans_bounded (p : MergePlanCalls) (fail : Nat → Bool) (h : (merge p fail).committed = false) :
     (merge p fail).outputsTombstoned ≤ p.groups.length :=
   merge_orphans_aux p fail h
+
+/-- non-vacuity: the premise of `orphans_bounded` holds for the two-group plan when the second group's write
+    (call 8) fails: nothing is committed, both outputs are tombstoned, and 2 ≤ 2 groups -/
+example : (merge nv_plan (fun k => k == 8)).committed = false ∧ (merge nv_plan (fun k => k == 8)).outputsTombstoned = 2 ∧
+    (merge nv_plan (fun k => k == 8)).outputsTombstoned ≤ nv_plan.groups.length :=
+  ⟨by decide, by decide, orphans_bounded nv_plan (fun k => k == 8) (by decide)⟩
 
 /-- Non-vacuity: a fault-free two-group merge commits. -/
 example : (merge ⟨[[.create, .openR, .read, .closeR, .write, .close], [.create, .write, .close]], 4⟩ (fun _ => false)).committed = true := by
